@@ -183,7 +183,7 @@ def gen_invocation(rng, idx):
                 recs.append('_span.record(%s, %s);' % (rust_str(nm), val)); descr.append('%s %s #0' % (nm_hex, vspec))
         declared = [bytes.fromhex(d.split()[0]).decode() for d in descr]
         if rng.random() < 0.5:
-            cand = [n.upper() for n in declared if n.upper() != n and n.upper() not in declared] + [n.capitalize() for n in declared if n.capitalize() != n and n.capitalize() not in declared] + ['zzz', 'message', '']
+            cand = [n.upper() for n in declared if n.upper() != n and n.upper() not in declared] + [n.capitalize() for n in declared if n.capitalize() != n and n.capitalize() not in declared] + [n for n in ('zzz', 'message', '') if n not in declared]      # (a span may DECLARE a field named `message`: then it is no stranger)
             for u in rng.sample(cand, min(len(cand), rng.choice([1, 2]))):
                 recs.insert(rng.randrange(len(recs) + 1), '_span.record(%s, 9u8);' % rust_str(u))
         if recs: stmt += '\n    ' + '\n    '.join(recs)
